@@ -37,13 +37,13 @@ func init() {
 type genCfg struct {
 	cfg config.PikeConfig
 	// validity of the library-validated fields, as chosen by the generator
-	adminOK  bool
-	cacheOK  []([2]bool) // hfp, store
-	upOK     []bool
-	locOK    []bool
-	srvOK    []bool
-	srvMin   []int64
-	srvFilt  []string
+	adminOK bool
+	cacheOK []([2]bool) // hfp, store
+	upOK    []bool
+	locOK   []bool
+	srvOK   []bool
+	srvMin  []int64
+	srvFilt []string
 }
 
 var cfgNames = []string{"a", "b", "c", "d"}
@@ -469,12 +469,12 @@ func normalizeCfg(c *config.PikeConfig) *config.PikeConfig {
 // ---------------------------------------------------------------- reconf (C16)
 
 type robs struct {
-	Servers  []string
-	Ups      []string
-	Caches   []string
-	Levels   []string
-	Route    []string
-	Extra    map[string]interface{} // compared live vs fresh on the Go side only
+	Servers []string
+	Ups     []string
+	Caches  []string
+	Levels  []string
+	Route   []string
+	Extra   map[string]interface{} // compared live vs fresh on the Go side only
 }
 
 func observeRegistries(addrs, upNames, cacheNames, profNames, locNames []string) robs {
@@ -856,14 +856,21 @@ func removedServersStopListening(sum *hx.Summary) func() {
 		}
 		sum.Count("listener-scenario")
 		var still []string
-		for _, a := range addrs[1:] {
-			if dial(a) {
-				still = append(still, a)
+		// the graceful close waits 10 s; on a loaded machine allow up to 25 s before calling it a violation
+		for deadline := t0.Add(25 * time.Second); ; time.Sleep(500 * time.Millisecond) {
+			still = nil
+			for _, a := range addrs[1:] {
+				if dial(a) {
+					still = append(still, a)
+				}
+			}
+			if len(still) == 0 || time.Now().After(deadline) {
+				break
 			}
 		}
 		kept := dial(addrs[0])
 		if len(still) > 0 || !kept {
-			sum.ImplViolations = append(sum.ImplViolations, map[string]interface{}{"property": "C16", "kind": "removed-servers-still-listening", "removed_in_one_update": addrs[1:], "still_accepting_after_12s": still, "surviving_server_accepts": kept})
+			sum.ImplViolations = append(sum.ImplViolations, map[string]interface{}{"property": "C16", "kind": "removed-servers-still-listening", "removed_in_one_update": addrs[1:], "still_accepting_after_25s": still, "surviving_server_accepts": kept})
 		}
 		go func() { _ = ss.Close() }()
 	}
